@@ -126,6 +126,24 @@ def run(ctx, chk):
             if not ok and a['ok']:
                 a['ok'] = False
                 a['why'] = why + ' | entry ' + str(e['entry'])
+    # a whole-set replacement: what is installed must be rows of the screen as well
+    from . import rules_grid as g_
+    for f_, rs_ in sorted(sr['results'].items()):
+        for r_ in rs_:
+            for (st, ret) in r_.finals:
+                for ev in st.event_list():
+                    if ev[0] == 'w' and ev[1] == ('dirty',):
+                        v_ = ev[2]
+                        lines = get(eng, st, 'lines')
+                        cr = g_.collected_range(v_)
+                        ok = (isinstance(v_, CollV) and v_.known == ()) or \
+                            (cr is not None and not cr[3] and isinstance(lines, NumV) and eng.prove_cmp(st, 'lt' if cr[2] else 'le', cr[1], lines) is True)
+                        k = (short(f_), 'dirty set replaced')
+                        a = dsites.setdefault(k, dict(ok=True, why='replaced by a collected range of rows of the final screen', span=prog.bodies[f_].span, n=0))
+                        a['n'] += 1
+                        if not ok and a['ok']:
+                            a['ok'] = False
+                            a['why'] = 'replaced by %r; lines %r | %s' % (v_, lines, r_.label)
     for (f, c), a in sorted(dsites.items()):
         chk.instance('R-DIRTYBOUND', f, c, a['ok'], detail='%s (%d visits)' % (a['why'], a['n']), span=a['span'],
                      what='a dirty-row index that is not a row of the screen can be recorded: ' + a['why'])
@@ -149,11 +167,20 @@ def run(ctx, chk):
                 old = st.vn.get(('entry', 'lines'))
                 if isinstance(newv, NumV) and isinstance(old, NumV) and eng.prove_le(st, old, newv) is True:
                     continue
-                cl = [i for i, ev in enumerate(evs) if ev[0] == 'coll.clear' and ev[1] == ('S', 'dirty')]
+                # (replacing the whole set - `dirty = (0..n).collect()` - empties it as well; what it then
+                # holds is checked below like an extend)
+                cl = [i for i, ev in enumerate(evs) if (ev[0] == 'coll.clear' and ev[1] == ('S', 'dirty')) or (ev[0] == 'w' and ev[1] == ('dirty',))]
                 if not cl:
                     bad.append((r.label, 'no clear of the dirty set on the path'))
                     continue
                 why = None
+                if evs[cl[-1]][0] == 'w' and cl[-1] < wl[-1]:
+                    from . import rules_grid as g_
+                    cr = g_.collected_range(evs[cl[-1]][2])
+                    v_ = evs[cl[-1]][2]
+                    empty = isinstance(v_, CollV) and v_.known == ()
+                    if not empty and not (cr is not None and not cr[3] and isinstance(newv, NumV) and eng.prove_cmp(st, 'lt' if cr[2] else 'le', cr[1], newv) is True):
+                        why = 'the set installed before the assignment (%r) is not bounded by the new `lines`' % (v_,)
                 for ev in evs[cl[-1] + 1:wl[-1]]:
                     if ev[0] == 'listener' and ('dirty',) in ctx.eff.maywrite.get(ev[1], set()):
                         why = 'after the last clear, %s (line %s) may mark rows measured against the old `lines`' % (short(ev[1]), ev[3])
@@ -193,18 +220,57 @@ def site_ord(prog, e):
     return name.split('::')[-1]
 
 
+def colour_text_ok(t):
+    """a documented colour name or a 6-digit lower-case hexadecimal colour"""
+    return isinstance(t, str) and (t == 'default' or (len(t) == 6 and all(c in '0123456789abcdef' for c in t)) or (t.isalpha() and t.islower()))
+
+
+_PALETTE = {}
+
+
+def palette_ok(eng):
+    """every entry of the 256-colour palette is a 6-digit hexadecimal colour (read from the evaluated table)"""
+    key = id(eng.prog)
+    if key not in _PALETTE:
+        from .tables import static_value
+        from . import fmtspec
+        try:
+            pal = static_value(eng, 'graphics::FG_BG_256')
+        except Exception:
+            pal = None
+        bad = None
+        if not (isinstance(pal, CollV) and pal.known is not None and len(pal.known) == 256):
+            bad = 'the palette could not be read as 256 entries'
+        else:
+            for i, e in enumerate(pal.known):
+                got = e.known if isinstance(e, StrV) else None
+                pv = e.prov if isinstance(e, StrV) else None
+                if got is None and isinstance(pv, tuple) and pv and pv[0] == 'format' and len(pv) > 2:
+                    # built by format!: rendered from the decoded template and the constant components
+                    vals = tuple((it[1].k if isinstance(it, tuple) and len(it) > 1 and isinstance(it[1], NumV) and it[1].sym is None else None) for it in pv[2])
+                    if all(v_ is not None for v_ in vals):
+                        got = fmtspec.render_hex(fmtspec.decode(pv[1]), tuple((it[0], v_) for it, v_ in zip(pv[2], vals)))
+                if not (isinstance(got, str) and len(got) == 6 and all(c in '0123456789abcdef' for c in got)):
+                    bad = 'palette entry %d is %r' % (i, got)
+                    break
+        _PALETTE[key] = bad
+    return _PALETTE[key]
+
+
 def colour_ok(eng, st, v):
     if not isinstance(v, StrV):
         return False, 'not a string: %r' % (v,)
     if v.known is not None:
-        ok = v.known == 'default' or (len(v.known) == 6 and all(c in '0123456789abcdef' for c in v.known)) or v.known.isalpha()
-        return ok, 'literal %r' % v.known
+        return colour_text_ok(v.known), 'literal %r' % v.known
     p = v.prov
     if isinstance(p, tuple) and p:
         if p[0] == 'table-value' and p[1] in COLOUR_TABLES:
-            return True, 'value of table %s' % p[1]
+            # decided on the members of the evaluated table, not on its name
+            wrong = [t for t in (p[2] if len(p) > 2 else ()) if not colour_text_ok(t)]
+            return (len(p) > 2 and bool(p[2]) and not wrong), ('value of table %s' % p[1]) + ((': member %r is not a colour' % wrong[0]) if wrong else '')
         if p[0] == 'vec-elem' and isinstance(p[1], tuple) and 'FG_BG_256' in str(p[1]):
-            return True, 'entry of FG_BG_256'
+            bad = palette_ok(eng)
+            return bad is None, 'entry of FG_BG_256' + ((': ' + bad) if bad else ' (all 256 entries are 6-digit hex)')
         if p[0] == 'format':
             from . import fmtspec
             tmpl = p[1] if len(p) > 1 else None
